@@ -65,6 +65,9 @@ Proof. unfold n6_len; lia. Qed.
 Lemma n6_len_app a b : n6_len (a ++ b) = n6_len a + n6_len b.
 Proof. unfold n6_len; rewrite app_length; lia. Qed.
 
+Lemma n6_len_cons a l : n6_len (a :: l) = 1 + n6_len l.
+Proof. unfold n6_len. cbn [length]. lia. Qed.
+
 Lemma n6_idx_some l i : 0 <= i < n6_len l -> exists v, n6_idx l i = Some v.
 Proof. intros H. unfold n6_idx. destruct ((0 <=? i) && (i <? n6_len l)) eqn:E; [eauto|lia]. Qed.
 
